@@ -21,6 +21,18 @@
 #define VF_ASAN 0
 #endif
 
+#if defined(__has_feature)
+#if __has_feature(thread_sanitizer)
+#define VF_TSAN 1
+#endif
+#endif
+#ifdef __SANITIZE_THREAD__
+#define VF_TSAN 1
+#endif
+#ifndef VF_TSAN
+#define VF_TSAN 0
+#endif
+
 #ifndef VF_CONFIG
 #define VF_CONFIG "unknown"
 #endif
@@ -594,12 +606,68 @@ void vf_finish(void) {
     }
 }
 
+#if VF_TSAN
+#include <sys/syscall.h>
+/* ThreadSanitizer runs the death callback while the reporting thread holds
+ * runtime locks; anything instrumented or intercepted (stdio, malloc, even
+ * plain memory accesses that roll the trace over) can deadlock there. So under
+ * TSan the in-flight case is written with raw system calls from uninstrumented
+ * code and the statistics of the dying worker are dropped. */
+__attribute__((no_sanitize("thread"))) static void raw_save(const char *path,
+                                                            const char *suffix,
+                                                            const void *data,
+                                                            size_t size) {
+    char full[4200];
+    size_t n = 0;
+    while (path[n] && n < 4096) {
+        full[n] = path[n];
+        n++;
+    }
+    for (size_t i = 0; suffix[i] && n < sizeof(full) - 1; i++) {
+        full[n++] = suffix[i];
+    }
+    full[n] = 0;
+    long fd = syscall(SYS_openat, AT_FDCWD, full, O_WRONLY | O_CREAT | O_TRUNC,
+                      0644);
+    if (fd < 0) {
+        return;
+    }
+    const char *p = (const char *)data;
+    while (size) {
+        long w = syscall(SYS_write, fd, p, size);
+        if (w <= 0) {
+            break;
+        }
+        p += w;
+        size -= (size_t)w;
+    }
+    syscall(SYS_close, fd);
+}
+#endif
+
+#if VF_TSAN
+__attribute__((no_sanitize("thread")))
+#endif
 static void crash_dump(const char *why) {
     static volatile sig_atomic_t once;
     if (once) {
         return;
     }
     once = 1;
+#if VF_TSAN
+    {
+        const char *path = getenv("VF_CRASH");
+        if (path && g_cur) {
+            size_t wl = 0;
+            while (why[wl]) {
+                wl++;
+            }
+            raw_save(path, "", g_cur, g_curlen);
+            raw_save(path, ".why", why, wl);
+        }
+        return;
+    }
+#endif
     const char *path = getenv("VF_CRASH");
     if (path && g_cur) {
         vf_save_case(path, g_cur, g_curlen);
